@@ -18,6 +18,21 @@ class Head(packet.Packet):
         formats.UInt8Field('version', default=None),
     ]
 
+    def pre_dissect(self, s):
+        # The magic and version are needed to choose the header type
+        if len(s) < 5:
+            raise formats.VerifyError('Contact header is incomplete')
+        return s
+
+    def post_dissection(self, pkt):
+        ''' Verify completeness and leave trailing data out of the header. '''
+        formats.remove_padding(self)
+
+        if not self.payload:
+            raise formats.VerifyError('Contact header without payload')
+
+        packet.Packet.post_dissection(self, pkt)
+
 
 class ContactV3(formats.NoPayloadPacket):
     ''' TCPCLv3 contact header pseudo-message. '''
